@@ -1,8 +1,16 @@
 (* Props/C10.v -- Network wrappers honour their calling and output conventions. *)
 From Coq Require Import List Arith Bool Lia QArith Qcanon.
-From JV Require Import Kit.Field Kit.Lists Model.M_nets Proofs.P_nets.
+From JV Require Import Kit.Field Kit.Lists Model.M_nets Proofs.P_nets Inst.I_nets.
 Import ListNotations.
 Open Scope nat_scope.
+
+(* regenerated from the source: PINN.eval_nn and HYPERPINN.eval_nn compute
+   output_transform(inputs, net(input_transform(inputs, params)).squeeze(), params) on the caller's
+   inputs (never rebound), slice iff an output slice is set (`is not None`), give 0-d results a
+   trailing axis; __call__ lifts a scalar time and concatenates (t, x); the hyper-network output is
+   split at the cumulative leaf sizes in leaf order and reshaped to the leaf shapes *)
+Lemma regenerated_nets_ok : g_nets_wiring = true.
+Proof. reflexivity. Qed.
 
 Section C10.
 Variable F : fld.
@@ -38,6 +46,7 @@ Theorem C10_hyper_leaf_segment {A} (sizes : list nat) (flat : list A) j : j < le
   nth j (split_sizes sizes flat) [] = firstn (nth j sizes 0) (skipn (fold_right Nat.add 0 (firstn j sizes)) flat).
 Proof. exact (split_segment sizes flat j). Qed.
 
+Print Assumptions regenerated_nets_ok.
 Print Assumptions C10_wrapper.
 Print Assumptions C10_bare_parameters.
 Print Assumptions C10_shared_outputs.
